@@ -42,6 +42,9 @@ type c07Spec struct {
 	Confirm string `json:"confirm"`
 	N       int    `json:"n"`
 	Gov     bool   `json:"gov"`
+	// Tiny: the delegate threshold is lowered to 1 FX and most oracles bond less than one unit of
+	// power (100 FX); the few with power are the ones that stop confirming
+	Tiny bool `json:"tiny"`
 }
 
 func init() {
@@ -74,7 +77,7 @@ func c07Cases(seed uint64, tier string) []core.Case {
 	for i := 0; i < n; i++ {
 		out = append(out, core.MkCase(fmt.Sprintf("C07-%03d", i), c07Spec{
 			Seed: rng.Uint64(), Chain: chains[i%len(chains)], Window: uint64(2 + rng.IntN(12)), Steps: 50 + rng.IntN(60),
-			Confirm: confirms[i%len(confirms)], N: 2 + rng.IntN(5), Gov: i%2 == 0,
+			Confirm: confirms[i%len(confirms)], N: 2 + rng.IntN(5), Gov: i%2 == 0, Tiny: i%6 == 5,
 		}))
 	}
 	return out
@@ -187,14 +190,28 @@ func (r *c07Run) observeAging() {
 func (r *c07Run) run() {
 	spec := r.spec
 	c := chain.New(chain.Config{Seed: spec.Seed, NumVals: 3, NumUsers: 5,
-		CrosschainParams: func(name string, p *crosschaintypes.Params) { p.SignedWindow = spec.Window }})
+		CrosschainParams: func(name string, p *crosschaintypes.Params) {
+			p.SignedWindow = spec.Window
+			if spec.Tiny {
+				p.DelegateThreshold = sdk.NewCoin(fxtypes.DefaultDenom, chain.FX(1))
+				p.DelegateMultiple = 100_000
+			}
+		}})
 	r.c = c
 	rng := core.Rng(spec.Seed, 7)
 	w := fix.NewWorld(c)
 	r.w = w
 	var stakes []sdkmath.Int
 	for i := 0; i < spec.N; i++ {
-		stakes = append(stakes, chain.FX(int64(10000+rng.IntN(40000))))
+		st := chain.FX(int64(10000 + rng.IntN(40000)))
+		if spec.Tiny {
+			// oracle 0..N-2: below one unit of power; the last one carries all the power
+			st = chain.FX(int64(1 + rng.IntN(98)))
+			if i == spec.N-1 {
+				st = chain.FX(int64(100 + rng.IntN(400)))
+			}
+		}
+		stakes = append(stakes, st)
 	}
 	b, err := w.AddBridge(spec.Chain, stakes)
 	if err != nil {
@@ -202,6 +219,13 @@ func (r *c07Run) run() {
 		return
 	}
 	r.b = b
+	if spec.Tiny {
+		spec.Confirm = "some-zero-power"
+		r.diligent = b.Oracles[:len(b.Oracles)-1] // only the powerless ones keep confirming
+		if rng.IntN(3) == 0 {
+			r.diligent = nil
+		}
+	}
 	switch spec.Confirm {
 	case "all":
 		r.diligent = b.Oracles
